@@ -68,6 +68,10 @@ Definition base_is_public_suffix (p : pattern) : bool :=
 
 Definition any_pna (c : config) : bool := c_pna c || c_pna_nocors c.
 
+(* the parsed non-"*" patterns a configuration lists: the patterns whose union is "allowed" *)
+Definition cfg_patterns (c : config) : list pattern :=
+  flat_map (fun raw => match parse_pattern ace_ok ip6 raw with inl p => [p] | inr _ => [] end) (c_origins c).
+
 (* ---- C04: every documented prohibition ---- *)
 Definition origin_ok (c : config) (raw : bytes) : bool :=
   if beqb raw v_star then negb (c_credentialed c) && negb (any_pna c)
